@@ -62,6 +62,39 @@ def impl_side(c, ops_file, impl_file, max_report=6):
     c.cov["impl_side_failures"] = {" ".join(k): v for k, v in seen.items()}
 
 
+def hang_cases(ops_file, impl_file):
+    """headers (`# case …`) of the cases in which the harness raised a `hang` event"""
+    ops = open(ops_file).read().splitlines()
+    impl = open(impl_file).read().splitlines()
+    n = min(len(ops), len(impl))
+    out = []
+    for (a, b) in split_cases(ops[:n]):
+        if any(ops[i].startswith("hang ") and impl[i].startswith("FAIL") for i in range(a, b)):
+            out.append(ops[a] if ops[a].startswith("#") else f"# at {a}")
+    return out
+
+
+def confirm_hangs(c, hbin, extra, prof, ops_file, impl_file):
+    """A scenario that did not finish inside the time limit says nothing about C01–C06 by itself (none of them is a liveness
+    statement) and may be the machine, not the client: it is reported only if it REPRODUCES — the same profile is run once
+    more with the same seed (same scenarios, same fault scripts) and the same case must hang again.  A hang that does not
+    come back is counted in the evidence (`hangs_not_reproduced`) and its problem entry is dropped."""
+    hung = hang_cases(ops_file, impl_file)
+    c.cov.setdefault("hangs_not_reproduced", [])
+    c.cov.setdefault("hangs_reproduced", [])
+    if not hung:
+        return
+    is_hang = lambda p: p.kind == "property" and "(FAIL hang" in p.what
+    keep = [p for p in c.problems if not is_hang(p)]
+    hangs = [p for p in c.problems if is_hang(p)]
+    r = c.run_harness(hbin, extra=extra, tag=prof + "-rerun", timeout=3 * 3600)
+    again = set(hang_cases(r[0], r[1])) if r else set(hung)
+    reproduced = [h for h in hung if h in again]
+    c.cov.setdefault("hangs_not_reproduced", []).extend([f"{prof}: {h}" for h in hung if h not in again])
+    c.cov.setdefault("hangs_reproduced", []).extend([f"{prof}: {h}" for h in reproduced])
+    c.problems = keep + (hangs if reproduced else [])
+
+
 def profiles():
     """VERIF_HUB_PROFILE = both (default: each profile at 60 % of the tier's scenario count) | mock | full.  mock: mocktikv's MVCC store (every recorded answer is compared with the
     Lean model's); full: the real client runs against the Lean store itself (cgv-full: async commit, 1PC, CheckSecondaryLocks really
@@ -113,6 +146,7 @@ def run_hub(pid, a, rule, assumptions=(), extra_part=None):
         if m:
             c.diff_judge(ops, m)
             impl_side(c, ops, impl)
+            confirm_hangs(c, hbin, extra, prof, ops, impl)
     if extra_part:
         extra_part(c)
     if os.path.exists(os.path.join(LEAN, "ClientGoVerif", "Props", pid + ".lean")):
